@@ -26,6 +26,7 @@ Abstractions (recorded in tools/props/C04.py as well):
 -/
 import LA.Model.FS
 import LA.Gen.DiskWriter
+import LA.Lemmas.PathCleanFast   -- proved `@[csimp]` speed-up of `cleanup` for the compiled driver (no Mathlib)
 namespace LA.Xtr
 open LA.FS LA.PathClean
 open LA.Gen.DiskWriter
